@@ -6,12 +6,65 @@ import copy
 import itertools
 import json
 import warnings
+import ast
 
 IGNORABLE = {'metadata', 'name_mapper', 'hierarchy_mapper'}
 
 
 def _skey(x):
     return (0, x) if isinstance(x, str) else (1, repr(x))
+
+
+def extract_validator_constants(path):
+    """(ignorable_keys or None, has_repeated_child_test,
+    has_no_children_test, recognised)"""
+    src = open(path).read()
+    mod = ast.parse(src)
+    fn = None
+    for node in ast.walk(mod):
+        if isinstance(node, ast.FunctionDef) and node.name == 'validate_taxonomy_tree':
+            fn = node
+    if fn is None:
+        return None, False, False, False
+    keys = None
+    for node in ast.walk(fn):
+        if isinstance(node, ast.Assign) and len(node.targets) == 1 and \
+                isinstance(node.targets[0], ast.Name) and node.targets[0].id == 'bad_keys' and \
+                isinstance(node.value, ast.Set) and \
+                all(isinstance(e, ast.Constant) and isinstance(e.value, str) for e in node.value.elts):
+            keys = sorted(e.value for e in node.value.elts)
+    # the keys must be used as `set(taxonomy_tree.keys()) - bad_keys`
+    uses = any(isinstance(n, ast.BinOp) and isinstance(n.op, ast.Sub) and
+               isinstance(n.right, ast.Name) and n.right.id == 'bad_keys'
+               for n in ast.walk(fn))
+    # repeated-child test: a `raise` under `if len(set(x)) != len(x)` inside a
+    # loop over hierarchy[:-1]
+    strict = False
+    nochild = False
+    for loop in ast.walk(fn):
+        if not isinstance(loop, ast.For):
+            continue
+        it = loop.iter
+        if not (isinstance(it, ast.Subscript) and isinstance(it.value, ast.Name)
+                and it.value.id == 'hierarchy' and isinstance(it.slice, ast.Slice)
+                and it.slice.lower is None and isinstance(it.slice.upper, ast.UnaryOp)
+                and isinstance(it.slice.upper.op, ast.USub)
+                and isinstance(it.slice.upper.operand, ast.Constant)
+                and it.slice.upper.operand.value == 1):
+            continue
+        for n in ast.walk(loop):
+            if isinstance(n, ast.If) and isinstance(n.test, ast.Compare) and \
+                    len(n.test.ops) == 1 and isinstance(n.test.ops[0], ast.NotEq) and \
+                    'len(set(' in ast.unparse(n.test) and \
+                    any(isinstance(b, ast.Raise) for b in n.body):
+                strict = True
+            if isinstance(n, ast.If) and isinstance(n.test, ast.Compare) and \
+                    len(n.test.ops) == 1 and isinstance(n.test.ops[0], ast.Eq) and \
+                    ast.unparse(n.test).replace(' ', '') in (
+                        'len(child_list)==0',) and \
+                    any(isinstance(b, ast.Raise) for b in n.body):
+                nochild = True
+    return keys, strict, nochild, (keys is not None and uses)
 
 
 class TreeCanon(object):
@@ -90,6 +143,7 @@ ERR_PATTERNS = [
     ('has no parent at level', 'orphan'),
     ('is not present in the keys at', 'missingChild'),
     ('has at least two parents', 'twoParents'),
+    ('has no children', 'noChildren'),
     ('more than once as a child', 'repeatedChild'),
     ('Some rows appear more than once', 'dupRows'),
     ('It is flat', 'flatTree'),
@@ -102,6 +156,9 @@ ERR_PATTERNS = [
 
 def classify_error(exc):
     msg = str(exc)
+    # `hierarchy[-1]` on an empty hierarchy (validator, get_taxonomy_tree)
+    if isinstance(exc, IndexError) and 'list index out of range' in msg:
+        return 'emptyHierarchy'
     for pat, name in ERR_PATTERNS:
         if pat in msg:
             return name
@@ -276,6 +333,23 @@ def check_tree_object(tt, tree):
     return fails
 
 
+def indep_leaf_paths(tree):
+    """{leaf: {level: ancestor}} computed from the raw dict of a valid tree
+    (independent of the code under test)"""
+    h = tree['hierarchy']
+    out = {leaf: {} for leaf in tree[h[-1]]}
+    cur = {leaf: leaf for leaf in tree[h[-1]]}
+    for i in range(len(h) - 2, -1, -1):
+        par = {}
+        for p, kids in tree[h[i]].items():
+            for c in kids:
+                par[c] = p
+        for leaf in out:
+            cur[leaf] = par[cur[leaf]]
+            out[leaf][h[i]] = cur[leaf]
+    return out
+
+
 def leaf_ancestors(tt):
     """{leaf: {level: ancestor}}"""
     out = {}
@@ -283,4 +357,191 @@ def leaf_ancestors(tt):
     for n in tt.nodes_at_level(leaf):
         d = dict(tt.parents(leaf, n))
         out[n] = d
+    return out
+
+
+# --------------------------------------------------------------------------
+# malformed stream: classes gen.malformed_variants lacks, and the exhaustive
+# (every position) enumeration of one-edit variants used on small shapes
+# --------------------------------------------------------------------------
+
+def extra_malformed_variants(rng, tree):
+    """one-edit variants not produced by gen.malformed_variants:
+    (label, tree) pairs; labels ending in '_valid' must still be accepted"""
+    out = []
+    h = tree['hierarchy']
+
+    def cp():
+        return copy.deepcopy(tree)
+
+    # hierarchy emptied (validator indexes hierarchy[-1])
+    t = {'hierarchy': []}
+    out.append(('empty_hierarchy', t))
+    t = cp(); t['hierarchy'] = []; out.append(('empty_hierarchy_with_levels', t))
+    if len(h) > 1:
+        i = rng.randrange(len(h) - 1)
+        t = cp()
+        hh = list(h); hh[i], hh[i + 1] = hh[i + 1], hh[i]
+        t['hierarchy'] = hh
+        out.append(('hierarchy_swapped', t))
+        # a parent lists a node of its own level
+        pl = h[i]
+        ps = list(tree[pl].keys())
+        if ps:
+            t = cp()
+            p = rng.choice(ps)
+            t[pl][p] = list(t[pl][p]) + [rng.choice(ps)]
+            out.append(('own_level_child', t))
+        # repeated child, inserted at a random position (not only appended)
+        ps2 = [p for p in ps if len(tree[pl][p]) > 0]
+        if ps2:
+            t = cp()
+            p = rng.choice(ps2)
+            kids = list(t[pl][p])
+            kids.insert(rng.randrange(len(kids) + 1), rng.choice(kids))
+            t[pl][p] = kids
+            out.append(('repeated_child', t))
+        # second parent listed FIRST in dict order (new parent key moved to front)
+        if len(ps) > 1:
+            p1, p2 = rng.sample(ps, 2)
+            if tree[pl][p1]:
+                t = cp()
+                c = rng.choice(list(t[pl][p1]))
+                new = {p2: [c] + list(t[pl][p2])}
+                for k, v in t[pl].items():
+                    if k != p2:
+                        new[k] = v
+                t[pl] = new
+                out.append(('two_parents', t))
+        # (a) a non-leaf node whose child list is emptied: its former
+        #     children become orphans
+        j = rng.randrange(len(h) - 1)
+        cand = [p for p in tree[h[j]] if len(tree[h[j]][p]) > 0]
+        if cand:
+            t = cp()
+            t[h[j]][rng.choice(cand)] = []
+            out.append(('childless_parent', t))
+        # (b) an extra node without children at a non-leaf level (listed by
+        #     a parent of the level above, so that it is no orphan)
+        t = cp()
+        t[h[j]]['lonely_zz'] = []
+        if j > 0:
+            ups = list(t[h[j - 1]].keys())
+            if ups:
+                pp = rng.choice(ups)
+                t[h[j - 1]][pp] = list(t[h[j - 1]][pp]) + ['lonely_zz']
+        out.append(('childless_node', t))
+        # (c) childless AND repeated child in the same level: the first
+        #     offending parent in dict order decides the error class
+        pl0 = h[j]
+        ps0 = [p for p in tree[pl0] if len(tree[pl0][p]) > 0]
+        if ps0:
+            t = cp()
+            p0 = rng.choice(ps0)
+            t[pl0][p0] = list(t[pl0][p0]) + [t[pl0][p0][0]]
+            new = {}
+            if rng.random() < 0.5:
+                new['lonely_zz'] = []
+            for k, v in t[pl0].items():
+                new[k] = v
+            new.setdefault('lonely_zz', [])
+            t[pl0] = new
+            if j > 0:
+                ups = list(t[h[j - 1]].keys())
+                if ups:
+                    pp = rng.choice(ups)
+                    t[h[j - 1]][pp] = list(t[h[j - 1]][pp]) + ['lonely_zz']
+            out.append(('childless_and_repeated', t))
+    # ignorable keys
+    t = cp()
+    t['name_mapper'] = {}
+    t['hierarchy_mapper'] = {}
+    out.append(('ignorable_keys_valid', t))
+    # duplicate row inside one leaf
+    leaf = h[-1]
+    with_rows = [k for k in tree[leaf] if len(tree[leaf][k]) > 0]
+    if with_rows:
+        t = cp()
+        a = rng.choice(with_rows)
+        t[leaf][a] = list(t[leaf][a]) + [t[leaf][a][-1]]
+        out.append(('dup_row_same_leaf', t))
+    return out
+
+
+def all_one_edit_variants(tree):
+    """EVERY one-edit corruption (of the classes below) at EVERY position of a
+    valid tree; deterministic.  (label, tree) pairs."""
+    out = []
+    h = tree['hierarchy']
+
+    def cp():
+        return copy.deepcopy(tree)
+
+    t = cp(); t.pop('hierarchy'); out.append(('no_hierarchy', t))
+    t = cp(); t['stray'] = {}; out.append(('stray_key', t))
+    t = cp(); t['hierarchy'] = h + ['ghost']; out.append(('ghost_level', t))
+    t = cp(); t['hierarchy'] = ['ghost'] + h; out.append(('ghost_level', t))
+    t = cp(); t['hierarchy'] = []; out.append(('empty_hierarchy_with_levels', t))
+    for i in range(len(h)):
+        if len(h) > 1:
+            t = cp(); t['hierarchy'] = h[:i] + h[i + 1:]
+            out.append(('unlisted_level', t))
+            t = cp(); t.pop(h[i]); out.append(('missing_level_dict', t))
+        if i + 1 < len(h):
+            t = cp()
+            hh = list(h); hh[i], hh[i + 1] = hh[i + 1], hh[i]
+            t['hierarchy'] = hh
+            out.append(('hierarchy_swapped', t))
+        for k in tree[h[i]]:
+            t = cp()
+            new = {}
+            for kk, vv in t[h[i]].items():
+                new[7 if kk == k else kk] = vv
+            t[h[i]] = new
+            out.append(('non_str_node', t))
+    for i in range(len(h) - 1):
+        pl, cl = h[i], h[i + 1]
+        parents = list(tree[pl].keys())
+        kids = list(tree[cl].keys())
+        for c in kids:
+            t = cp(); t[cl].pop(c); out.append(('missing_child_key', t))
+        t = cp(); t[cl]['orphan_zz'] = []; out.append(('orphan', t))
+        for p in parents:
+            for j, c in enumerate(tree[pl][p]):
+                t = cp()
+                t[pl][p] = list(t[pl][p]) + [c]
+                out.append(('repeated_child', t))
+                t = cp()
+                kk = list(t[pl][p]); kk.insert(0, c); t[pl][p] = kk
+                out.append(('repeated_child', t))
+                for p2 in parents:
+                    if p2 != p:
+                        t = cp()
+                        t[pl][p2] = list(t[pl][p2]) + [c]
+                        out.append(('two_parents', t))
+            t = cp()
+            t[pl][p] = list(t[pl][p]) + [p]
+            out.append(('own_level_child', t))
+            t = cp()
+            t[pl][p] = list(t[pl][p]) + ['nowhere_zz']
+            out.append(('missing_child_key', t))
+    leaf = h[-1]
+    for a in tree[leaf]:
+        for r in tree[leaf][a]:
+            for b in tree[leaf]:
+                t = cp()
+                t[leaf][b] = list(t[leaf][b]) + [r]
+                out.append(('dup_row', t))
+    for i in range(len(h) - 1):
+        for p in tree[h[i]]:
+            t = cp(); t[h[i]][p] = []
+            out.append(('childless_parent', t))
+        t = cp(); t[h[i]]['lonely_zz'] = []
+        if i > 0:
+            for pp in tree[h[i - 1]]:
+                t2 = copy.deepcopy(t)
+                t2[h[i - 1]][pp] = list(t2[h[i - 1]][pp]) + ['lonely_zz']
+                out.append(('childless_node', t2))
+        else:
+            out.append(('childless_node', t))
     return out
